@@ -631,6 +631,11 @@ func ReplayOne(ad Adapter, initRaw, stateRaw string, history []string, callRaw, 
 	if e != nil {
 		return nil, nil, e
 	}
+	if sa, ok := inst.(StateAware); ok && stateRaw != "" {
+		if st, e := tla.Parse(stateRaw); e == nil {
+			sa.SetState(&st)
+		}
+	}
 	obs = inst.Apply(&call)
 	divs = inst.CheckResult(&call, &tr, obs)
 	n := tr.Get("n")
